@@ -217,7 +217,7 @@ def run(ctx):
         if not flags["cseSubtreeFromDb"]:
             ctx.expect_known(SIGS["cseSubtreeFromDb"][0], True, twin_case, SIGS["cseSubtreeFromDb"][1])
         cases = witness_cases(ctx, env, flags)
-        for i in range(ctx.n(20, 220)):
+        for i in range(ctx.n(16, 220)):
             c = ctl_db.guarded(ctx, f"gen{i}", lambda i=i: gen_case(ctx, env, flags, i))
             if c is not None:
                 cases.append(c)
